@@ -373,6 +373,28 @@ def ginv(M):
     return [row[n:] for row in A]
 
 
+def _is_scalar_over_op(c, A, M):
+    """Ex.IsScalarOverOp n c A M (Lemmas/ExprSdiv.lean), exactly over Q[i]: M A = c 1 and A M = c 1"""
+    from fractions import Fraction
+    n = len(A)
+    zero = (Fraction(0), Fraction(0))
+
+    def mm(X, Y):
+        out = []
+        for i in range(n):
+            row = []
+            for j in range(n):
+                s = zero
+                for q in range(n):
+                    p = _zmul(X[i][q], Y[q][j])
+                    s = (s[0] + p[0], s[1] + p[1])
+                row.append(s)
+            out.append(row)
+        return out
+    want = [[c if i == j else zero for j in range(n)] for i in range(n)]
+    return mm(M, A) == want and mm(A, M) == want
+
+
 UNDEF = ["undef"]
 
 
@@ -411,6 +433,12 @@ def sdiv_oracle(exprs, run_driver):
                 inv = ginv([[_zq(z) for z in row] for row in sp["value"]])
                 if inv is not None:
                     c = _zq(inner[k][1]["v"])
+                    # the substituted matrix M = c * inverse(A) must satisfy the Lean specification of `c / A`
+                    # (Ex.IsScalarOverOp, Lemmas/ExprSdiv.lean: M A = c 1 = A M), checked exactly on every oracle value
+                    A_ = [[_zq(z) for z in row] for row in sp["value"]]
+                    M_ = [[_zmul(c, z) for z in row] for row in inv]
+                    if not _is_scalar_over_op(c, A_, M_):
+                        raise AssertionError("sdiv_oracle: c * inverse(A) violates Ex.IsScalarOverOp")
                     val = [[_zjson(_zmul(c, z)) for z in row] for row in inv]
                     n = sp["rows"]
                     rep = ["arr", sp["dtype"], n, n, val] if sp.get("isarr") else ["op", ["dense", sp["dtype"], n, n, val]]
@@ -801,8 +829,11 @@ def run(ctx):
                       "explains a code/spec difference only at the sub-expression where it first appears and only if that node is an "
                       "instance of the clause (Ex.rootClauses)"}
     common.write_evidence(ctx, gate, cov, assumptions=[
-        "c / A is compared with the exact matrix c * inverse(A) (sdiv_oracle: Gauss-Jordan over the Gaussian rationals, substituted "
-        "as a leaf into the Lean specification); where A * (1/c) happens to equal it the case is counted ok without a clause "
+        "the meaning of c / A is stated in Lean relationally (Ex.IsScalarOverOp: M A = c 1 = A M; C03_sdiv_meaning: the code's "
+        "(1/c) A has it iff A A = c^2 1; witnesses C03_sdiv_coincides_witness / C03_sdiv_differs_witness), but the VALUE c * inverse(A) "
+        "the stream compares with is computed by the Python oracle (sdiv_oracle: Gauss-Jordan over the Gaussian rationals, every value "
+        "checked exactly against the relation Ex.IsScalarOverOp re-implemented in Python, then substituted "
+        "as a leaf into the Lean specification) - the general c / A case is validated by the stream, not by a theorem about eval; where A * (1/c) happens to equal it the case is counted ok without a clause "
         "(outcome quotient_coincides_with_inverse), otherwise the recorded clause scalar-divided-by-operator is attributed at the "
         "c / A node; for a singular A the quotient has no value and the clause is attributed likewise"])
     print(json.dumps({"outcomes": dict(stats), "distinct_nontrivial": len(distinct), "gate": (gate or {}).get("obligations")}))
